@@ -124,6 +124,8 @@ def _load_docstring(obj_dict: dict) -> Docstring | None:
         # so we restore the sections instead of parsing the docstring again.
         parsed = docstring_dict.pop("parsed", None)
         docstring = Docstring(**docstring_dict)
+        # The value was cleaned when the docstring was first created: cleaning it again can remove more indentation.
+        docstring.value = docstring_dict["value"]
         if parsed is not None:
             docstring.parsed = [_load_docstring_section(section) for section in parsed]
         return docstring
